@@ -6,6 +6,7 @@ import (
 	"sort"
 	"strconv"
 	"strings"
+	"sync"
 	"time"
 
 	"github.com/titpetric/vuego"
@@ -297,7 +298,13 @@ type c17Path struct {
 }
 
 var c17Leaves = []string{"str", "mapss", "ints", "array", "nilptr", "int", "mapsi", "ints12"}
-var c17Nest = []string{"mapany", "sliceany", "struct", "ptr", "ptrptr", "mapstruct", "ptrmap", "ptrslice", "embed", "clash"}
+var c17Nest = []string{"mapany", "sliceany", "struct", "ptr", "ptrptr", "mapstruct", "ptrmap", "ptrslice", "embed", "clash", "hidden"}
+
+// c17Hidden: a field tagged json:"-" has no tag name ("-" is not one); its Go name reaches it.
+type c17Hidden struct {
+	Secret any `json:"-"`
+	Field  any `json:"tag"`
+}
 
 // c17Clash: the JSON tag of one field is spelled like the Go name of a later field. A step
 // "Field" is the Go field Field (what x.Field reaches); "tag" reaches it through its tag.
@@ -338,7 +345,7 @@ func c17Build(desc string) any {
 	for i := len(parts) - 2; i >= 0; i-- {
 		switch parts[i] {
 		case "mapany":
-			v = map[string]any{"k": v, "tag": "maptag", "1": "one-key", "x.y": "dotted-key", "x": map[string]any{"y": "x-then-y"}}
+			v = map[string]any{"k": v, "tag": "maptag", "1": "one-key", "x.y": "dotted-key", "x": map[string]any{"y": "x-then-y"}, "a b": "spaced-key", "ab": "compact-key"}
 		case "sliceany":
 			v = []any{v, "second"}
 		case "struct":
@@ -357,6 +364,8 @@ func c17Build(desc string) any {
 			v = &pp
 		case "clash":
 			v = c17Clash{Display: "display", Field: v}
+		case "hidden":
+			v = c17Hidden{Secret: "secret", Field: v}
 		case "embed":
 			v = c17Outer{c17Path: c17Path{Field: v, Tagged: v}, Own: "o"}
 		case "mapstruct":
@@ -366,7 +375,7 @@ func c17Build(desc string) any {
 	return v
 }
 
-var c17Steps = []string{"k", "0", "1", "9", "10", "-1", "Field", "tag", "priv", "Tagged", "x.y"}
+var c17Steps = []string{"k", "0", "1", "9", "10", "-1", "Field", "tag", "priv", "Tagged", "x.y", "a b", "ab", "-", "Secret"}
 
 // refStep is ordinary Go indexing: (value, ok, defined)
 func refStep(cur any, step string) (any, bool, bool) {
@@ -402,6 +411,9 @@ func refStep(cur any, step string) (any, bool, bool) {
 		for pass := 0; pass < 2; pass++ {
 			for _, f := range reflect.VisibleFields(rv.Type()) {
 				tag := strings.Split(f.Tag.Get("json"), ",")[0]
+				if tag == "-" {
+					tag = "" // json:"-" excludes the field from tag addressing
+				}
 				if f.Anonymous && f.Name != step {
 					continue
 				}
@@ -422,10 +434,43 @@ func refStep(cur any, step string) (any, bool, bool) {
 	return nil, false, true
 }
 
+// c17Cold: paths that differ only in their spelling (blanks, quotes, brackets), resolved in a
+// fixed order the first time a process comes here - the engine remembers how it split the first
+// few hundred paths it sees, process-wide, so what one spelling left behind is what the next one
+// finds. The pairs are asked in both orders (with different keys, since each path can be the
+// first of its kind only once).
+var c17Cold sync.Once
+
+func c17ColdProbe(ctx *core.Ctx) {
+	m := map[string]any{"a b": "spaced", "ab": "compact", "cd": "compact2", "c d": "spaced2", "x.y": "dotted", "x": map[string]any{"y": "nested"}, "0": "zero-key",
+		"e f": map[string]any{"g": "deep-spaced"}, "ef": map[string]any{"g": "deep-compact"}}
+	st := vuego.NewStack(map[string]any{"r": m, "l": []any{"first", "second"}})
+	for _, q := range []struct{ path, want string }{
+		{"r['a b']", "spaced"}, {"r.ab", "compact"}, {"r['ab']", "compact"}, {"r[ 'a b' ]", "spaced"},
+		{"r.cd", "compact2"}, {"r['c d']", "spaced2"}, {"r[ 'cd' ]", "compact2"},
+		{"r['x.y']", "dotted"}, {"r.x.y", "nested"}, {"r[ 'x.y' ]", "dotted"}, {"r . x . y", "nested"},
+		{"r.ef.g", "deep-compact"}, {"r['e f'].g", "deep-spaced"}, {"r['e f']['g']", "deep-spaced"}, {"r['ef']['g']", "deep-compact"},
+		{"l[0]", "first"}, {"l[ 0 ]", "first"}, {"l[1]", "second"}, {"l[ 1 ]", "second"}, {"r['0']", "zero-key"}, {"r[0]", "zero-key"},
+	} {
+		ctx.Eval(1)
+		got, ok := st.Resolve(q.path)
+		if !ok || got != any(q.want) {
+			ctx.Violation("path-resolution", "spelling", "first-paths-of-a-process", fmt.Sprintf("in a process that has resolved few paths so far, %q gives (%#v, %v), want %q", q.path, got, ok, q.want))
+		}
+	}
+}
+
 func (c *c17Case) runPath(ctx *core.Ctx) {
 	val := c17Build(c.Value)
 	st := vuego.NewStack(map[string]any{"r": val})
 	ctx.NonTrivial()
+	// white space around a lone name is not part of it
+	for _, p := range []string{" r ", "r ", " r", "\tr\n"} {
+		ctx.Eval(1)
+		if got, ok := st.Resolve(p); !ok || fmt.Sprintf("%#v", got) != fmt.Sprintf("%#v", val) {
+			ctx.Violation("path-resolution", "padded-name", "lone-name", fmt.Sprintf("value %s path %q: got (%#v, %v) want (%#v, true)", c.Value, p, got, ok, val))
+		}
+	}
 	var rec func(steps []string)
 	check := func(steps []string) {
 		// reference
@@ -741,6 +786,7 @@ func (c *c17Case) runDeep(ctx *core.Ctx) {
 }
 
 func (c *c17Case) Run(ctx *core.Ctx) {
+	c17Cold.Do(func() { c17ColdProbe(ctx) })
 	if c.Part == "deep" {
 		c.runDeep(ctx)
 		return
